@@ -1,5 +1,7 @@
 // append-to: src/vt.rs
 // harness: k_feed_str_is_fold props=C12,C13,C15,C02 kind=bounded tier=thorough timeout=2400 obligation=Vt::feed_str(fold of feed, then changes() and gc()) bound="2x2 terminal, limit 0, two ASCII characters from a class-covering alphabet"
+// harness: k_vt_resize_a props=C02,C13,C15 kind=bounded tier=quick timeout=900 obligation=Vt::resize(= Terminal::resize, then changes(), then gc()) bound="2x2 terminal with one scrollback line, limit 0, resize to 3x1"
+// harness: k_vt_resize_b props=C02,C13,C15 kind=bounded tier=thorough timeout=900 obligation=Vt::resize bound="2x2 terminal with one scrollback line, limit 0, resize to 1x3"
 #[cfg(kani)]
 mod verif_kani_vt {
     use super::*;
@@ -35,4 +37,43 @@ mod verif_kani_vt {
         assert!(v1.lines().len() == 2);
         kani::cover!(v1.cursor().row == 1);
     }
+
+    fn resize_case(cols: usize, rows: usize) {
+        let mut v = Vt::builder().size(2, 2).scrollback_limit(0).build();
+        // one line of scrollback that a trim must remove
+        v.terminal.buffer.lines.insert(0, Line::blank(2, crate::pen::Pen::default()));
+        v.terminal.buffer.trim_needed = false;
+        let dirty_before = v.terminal.changes();
+        assert!(dirty_before.len() == 2);
+        let (lines, n_scrollback) = {
+            let ch = v.resize(cols, rows);
+            let l = ch.lines.clone();
+            let n = ch.scrollback.count();
+            (l, n)
+        };
+        // [C02] geometry as requested, changed lines strictly increasing and below rows
+        assert!(v.size() == (cols, rows));
+        assert!(v.view().len() == rows);
+        let mut j = 0;
+        while j < lines.len() {
+            assert!(lines[j] < rows);
+            if j > 0 {
+                assert!(lines[j - 1] < lines[j]);
+            }
+            j += 1;
+        }
+        // [C15] a resize reports every row
+        assert!(lines.len() == rows);
+        // [C13] limit 0: exactly `rows` lines remain once the Changes value is gone
+        assert!(v.lines().len() == rows);
+        assert!(v.cursor().row < rows && v.cursor().col <= cols);
+        kani::cover!(n_scrollback > 0);
+    }
+
+    #[kani::proof]
+    #[kani::unwind(8)]
+    fn k_vt_resize_a() { resize_case(3, 1) }
+    #[kani::proof]
+    #[kani::unwind(8)]
+    fn k_vt_resize_b() { resize_case(1, 3) }
 }
